@@ -103,7 +103,7 @@ func checkC14(p *Prog, r *Report) {
 			default:
 				return
 			}
-			src, _ := loadedField(stripConv(c.Common().Args[1], false))
+			src, _ := loadedField(stripConv(resolveCell(c.Common().Args[1]), false))
 			dst, _ := loadedField(stripConv(resolveCell(c.Common().Args[0]), false))
 			srcs := map[*types.Var]bool{}
 			inTable := false
